@@ -210,3 +210,20 @@ class GenericSubTLV(SubTLV):
 
     def json(self) -> str:
         return f'"unknown-subtlv-{self._subtype}": "{hexstring(self._packed)}"'
+
+    # The attribute is rendered, compared and indexed through str() of what it holds: without
+    # these the text was the default "<... object at 0x...>", a memory address, so two decodes
+    # of the same bytes rendered differently and were not equal.
+    def __str__(self) -> str:
+        return f'unknown-subtlv-{self._subtype} {hexstring(self._packed)}'
+
+    def __repr__(self) -> str:
+        return str(self)
+
+    def __eq__(self, other: object) -> bool:
+        if not isinstance(other, GenericSubTLV):
+            return False
+        return self._subtype == other._subtype and self._packed == other._packed
+
+    def __hash__(self) -> int:
+        return hash((self._subtype, self._packed))
